@@ -146,7 +146,8 @@ Print Assumptions C04_reserved_and_bad_preserved.
 (** one step, the general form: a changed entry was free or used, and is a cluster of the volume *)
 Theorem C04_changed_entries : forall s s', pre s -> wstep s s' ->
   forall i, 0 <= i -> nthZ (s_fat s') i <> nthZ (s_fat s) i ->
-  2 <= i <= max_cluster s /\ (nthZ (s_fat s) i = 0 \/ used_val (ft s) (dmax s) (nthZ (s_fat s) i) = true).
+  2 <= i <= max_cluster s /\ (nthZ (s_fat s) i = 0 \/ used_val (ft s) (dmax s) (nthZ (s_fat s) i) = true) /\
+  0 <= nthZ (s_fat s') i <= Gen.END_OF_CLUSTER_MAX (ft s).
 Proof. intros s s' Hp H. destruct (wstep_J s s' Hp H) as (_ & _ & _ & _ & _ & [_ C] & _). exact C. Qed.
 Print Assumptions C04_changed_entries.
 
